@@ -94,6 +94,16 @@ func lineColOf(input []byte, off int) (line, col int, undecided bool) {
 }
 
 func checkC11(p *Parser, R0, r *CallResult, faults []kernel.Fault, recoverOn bool, pos PosOracle, lineCol map[int][2]int, kept map[int]bool, filename string, input []byte) (string, string, map[string]any) {
+	return checkC11cut(p, R0, r, faults, recoverOn, pos, lineCol, kept, filename, input, false)
+}
+
+// checkC11cut is checkC11 for a run that may have been cut short by an
+// exhausted MaxExpressions budget (cut=true): then the history is a prefix of
+// the twin's, the value is nil, the final element of the list is the budget
+// error (a parser error with the usual prefix), and everything before it is
+// judged as in an uncut run: the errors code blocks returned before the cut
+// must all be there.
+func checkC11cut(p *Parser, R0, r *CallResult, faults []kernel.Fault, recoverOn bool, pos PosOracle, lineCol map[int][2]int, kept map[int]bool, filename string, input []byte, cut bool) (string, string, map[string]any) {
 	g := p.Grammar()
 	prefixRe := prefixRegexp(filename)
 	if r.Aborted || r.Overflow {
@@ -127,6 +137,9 @@ func checkC11(p *Parser, R0, r *CallResult, faults []kernel.Fault, recoverOn boo
 	want := h0
 	if firstPanic >= 0 && firstPanic+1 <= len(h0) {
 		want = h0[:firstPanic+1]
+	}
+	if cut && len(h) <= len(want) {
+		want = want[:len(h)]
 	}
 	if ok, at := sameStrings(h, want); !ok {
 		return "history-changed", fmt.Sprintf("returning an error from a code block changed what ran afterwards (event %d)", at), map[string]any{"got": around(h, at), "want": around(want, at)}
@@ -174,6 +187,30 @@ func checkC11(p *Parser, R0, r *CallResult, faults []kernel.Fault, recoverOn boo
 	}
 	if r.Escaped != "" {
 		return "panic-escaped", "a panic reached the caller of Parse although Recover is enabled: " + r.Escaped, nil
+	}
+	if cut {
+		if r.ErrNil || !r.ErrIsList || len(r.Errs) == 0 {
+			return "error-type", "after an exhausted budget the returned error is not the documented error list type: " + r.ErrText, nil
+		}
+		last := r.Errs[len(r.Errs)-1]
+		if last.InnerMsg != maxExprMsg || !last.IsParserError || !strings.HasSuffix(last.Msg, ": "+maxExprMsg) || prefixRe.FindStringSubmatch(strings.TrimSuffix(last.Msg, ": "+maxExprMsg)) == nil {
+			return "error-list", fmt.Sprintf("the final element after an exhausted budget is not the budget error as a parser error with the file:line:col (offset): rule prefix: %q", errMsgsShort(r)), nil
+		}
+		if !r.ValueNil {
+			return "value-after-exhaustion", "a value was returned together with the budget error: " + r.Value, nil
+		}
+		// judge the rest as an uncut run that returned what the twin returned
+		rr := *r
+		rr.Errs = r.Errs[:len(r.Errs)-1]
+		rr.Value, rr.ValueNil = R0.Value, R0.ValueNil
+		rr.ErrNil = len(rr.Errs) == 0
+		r = &rr
+		if len(exps) == 0 {
+			if len(rr.Errs) != 0 {
+				return "error-list", fmt.Sprintf("no code block returned an error before the budget ran out, but the list holds more than the budget error: %q", errMsgsShort(r)), nil
+			}
+			return "", "", nil
+		}
 	}
 	if len(exps) == 0 && kept != nil && len(r.Injected) > 0 {
 		// every injected error was made in an abandoned growth attempt
@@ -370,6 +407,8 @@ func campaignC11(p *Parser, req *Request, resp *Response) {
 	var sets [][]kernel.Fault
 	if len(req.FaultSets) > 0 {
 		sets = req.FaultSets
+	} else if len(req.Budgets) > 0 {
+		// replay of a budget-cut violation: only that sub-check runs
 	} else {
 		singleMax := req.SingleMax
 		if singleMax == 0 {
@@ -495,6 +534,73 @@ func campaignC11(p *Parser, req *Request, resp *Response) {
 			}
 			if len(r.Errs) > 0 && !r.ValueNil {
 				resp.stat("value_and_errors_together", 1)
+			}
+		}
+	}
+	// cancellation as one more fault: the same call with a share of the blocks
+	// returning errors and a MaxExpressions budget that runs out somewhere in
+	// the middle. What was recorded before the cut must all be reported, as a
+	// typed list, with the budget error last (not under left recursion, where
+	// the model that says which errors survive knows no budgets; not with
+	// Recover(false), known finding F4 of C16).
+	if call.Opts.Stats && recoverOn && !leftRec && R0.ExprCnt > 2 && len(req.FaultSets) == 0 && len(resp.Violations) == 0 && len(R0.Errs) == 0 {
+		type cutCase struct {
+			budget uint64
+			pct    int
+		}
+		var cuts []cutCase
+		if len(req.Budgets) > 0 {
+			for i, b := range req.Budgets {
+				if i < len(req.Carries) {
+					cuts = append(cuts, cutCase{b, int(req.Carries[i])})
+				}
+			}
+		} else {
+			for k := 0; k < 3; k++ {
+				// two of three in the later half of the run, where more has been recorded
+				b := 1 + uint64(simrt.Choose(int(R0.ExprCnt-1)))
+				if k > 0 && b < R0.ExprCnt/2 {
+					b += R0.ExprCnt / 2
+				}
+				cuts = append(cuts, cutCase{b, []int{100, 50, 20}[k]})
+			}
+		}
+		for _, cc := range cuts {
+			c := call
+			c.Plan.Faults = nil
+			c.Plan.ErrPct = cc.pct
+			c.Opts.MaxExpr = cc.budget
+			r := p.Solo(&c, req.Pool, req.StepCap)
+			resp.Runs++
+			if r.Aborted || r.Overflow {
+				continue
+			}
+			cut := false
+			for _, e := range r.Errs {
+				if e.InnerMsg == maxExprMsg {
+					cut = true
+				}
+			}
+			if !cut && !r.ErrNil && !r.ErrIsList && strings.Contains(r.ErrText, maxExprMsg) {
+				cut = true // reported, but not as the documented list: checkC11cut says so
+			}
+			if !cut {
+				continue // the budget sufficed after all (errors do not change what runs)
+			}
+			resp.stat("budget_cut_runs", 1)
+			if len(r.Injected) > 0 {
+				resp.stat("budget_cut_runs_with_errors_before_the_cut", 1)
+			}
+			class, msg, detail := checkC11cut(p, R0, r, nil, recoverOn, pos, lineCol, nil, call.Opts.FileName(), call.Input, true)
+			if class != "" {
+				if detail == nil {
+					detail = map[string]any{}
+				}
+				detail["budget"] = c.Opts.MaxExpr
+				detail["err_pct"] = c.Plan.ErrPct
+				resp.Violations = append(resp.Violations, Violation{Class: class, Msg: fmt.Sprintf("MaxExpressions(%d), %d%% of the blocks returning errors: %s", c.Opts.MaxExpr, c.Plan.ErrPct, msg), Detail: detail, Budgets: []uint64{c.Opts.MaxExpr}, Carries: []uint64{uint64(c.Plan.ErrPct)},
+					Attrs: map[string]string{"class": class, "recover": fmt.Sprint(recoverOn), "memoize": fmt.Sprint(call.Opts.Memoize), "optimized": fmt.Sprint(!p.Has["Memoize"]), "budget_cut": "true"}})
+				break
 			}
 		}
 	}
